@@ -1,4 +1,128 @@
 /-
-  C13 — container / dtype independence.  Property theorems only (filled in as proofs land).
+  C13 — container / dtype / shape independence of the normalisation of user-supplied states
+  (`CayleyGraph.encode_states`, `CayleyGraphDef.normalize_central_state`, generator normalisation in
+  `CayleyGraphDef.create`; model `CvModel/Normalize.lean`).  Property theorems only; proofs in `CvProofs/Normalize.lean`.
+
+  Findings recorded here by `example`:
+  * `normalize_congr` as first sketched (only `fits i`, `fits j`, equal values) is FALSE for one reason: a `str` is
+    accepted as a central state but rejected by `torch.as_tensor` in `encode_states` (`TypeError`).  The exact extra
+    condition is "both inputs are strings or neither" (`hs`); counterexample below.  The central-state version needs no
+    such condition.
+  * `fits` is needed: an int8 array cannot hold 200, it holds -56.
+  * Without the cast to int64 (the code before the fix) the bit-serial encoder is wrong on narrow dtypes as soon as a bit
+    of the row reaches the sign bit of the dtype (`w * n ≥ bits`), and right below that (`encodeNarrow_eq_of_lt`).
 -/
-import CvModel.Codec
+import CvProofs.Normalize
+namespace Cv.Normalize
+
+/-- states: the rows after `torch.as_tensor(states, dtype=int64).reshape((-1, stateSize))` depend only on the row-major
+values — not on the container kind, its dtype, or the shape — for representable values -/
+theorem normalize_congr (stateSize : Nat) (i j : Input) (hi : fits i) (hj : fits j) (hv : i.values = j.values)
+    (hs : i.container = .str ↔ j.container = .str) :
+    normalizeStates stateSize i = normalizeStates stateSize j := by
+  exact normalize_congr' stateSize i j hi hj hv hs
+
+/-- non-vacuity: an int8 NumPy matrix, a flat Python list, a uint8 torch one-row batch and an int32 batch of two states
+all give the same rows -/
+example : normalizeStates 4 ⟨.npArray 8 true, .matrix 2 2, [0, 1, 2, 3]⟩ = some [[0, 1, 2, 3]] := by decide
+example : normalizeStates 4 ⟨.npArray 8 true, .matrix 2 2, [0, 1, 2, 3]⟩ =
+    normalizeStates 4 ⟨.pyList, .flat, [0, 1, 2, 3]⟩ :=
+  normalize_congr 4 _ _ (by decide) (by decide) rfl (by decide)
+example : normalizeStates 4 ⟨.torchTensor 8 false, .oneRow, [0, 1, 2, 3]⟩ =
+    normalizeStates 4 ⟨.pyList, .flat, [0, 1, 2, 3]⟩ :=
+  normalize_congr 4 _ _ (by decide) (by decide) rfl (by decide)
+example : normalizeStates 2 ⟨.torchTensor 32 true, .batch 2, [0, 1, 1, 0]⟩ = some [[0, 1], [1, 0]] := by decide
+/-- `hs` is needed: the digits "0123" are a valid central state but not valid states -/
+example : fits ⟨.str, .flat, [0, 1, 2, 3]⟩ = true ∧ fits ⟨.pyList, .flat, [0, 1, 2, 3]⟩ = true ∧
+    normalizeStates 4 ⟨.str, .flat, [0, 1, 2, 3]⟩ ≠ normalizeStates 4 ⟨.pyList, .flat, [0, 1, 2, 3]⟩ := by decide
+/-- `fits` is needed: the list `[200]` and an int8 array "holding 200" (it holds -56) give different rows -/
+example : normalizeStates 1 ⟨.npArray 8 true, .flat, [200]⟩ = some [[-56]] ∧
+    normalizeStates 1 ⟨.pyList, .flat, [200]⟩ = some [[200]] := by decide
+/-- where the code raises: a size that is not a multiple of the state size, a Python int outside int64 -/
+example : normalizeStates 2 ⟨.pyList, .flat, [0, 1, 2]⟩ = none := by decide
+example : normalizeStates 1 ⟨.pyList, .flat, [2 ^ 63]⟩ = none := by decide
+/-- the cast wraps only for np.uint64 values `≥ 2^63` -/
+example : normalizeStates 1 ⟨.npArray 64 false, .flat, [2 ^ 63 + 5]⟩ = some [[-9223372036854775803]] := by decide
+
+/-- the cast is the identity on representable values for every dtype contained in int64 (and for Python lists, whose
+values `fits` checks against int64) -/
+theorem asInt64_id (i : Input) (h : fits i)
+    (hc : match i.container with
+      | .npArray b s => widening b s
+      | .torchTensor b s => widening b s
+      | _ => True) : asInt64 i = i.values := by
+  exact asInt64_eq_values_of_widening i h hc
+
+example : asInt64 ⟨.npArray 16 true, .flat, [-300, 7]⟩ = [-300, 7] :=
+  asInt64_id _ (by decide) (Or.inl ⟨rfl, by decide⟩)
+
+/-- when `normalizeStates` succeeds the rows have the state size and, concatenated, are the cast values -/
+theorem normalizeStates_sound (stateSize : Nat) (i : Input) (rows : List (List Int))
+    (h : normalizeStates stateSize i = some rows) :
+    (∀ row ∈ rows, row.length = stateSize) ∧ rows.flatten = asInt64 i ∧
+      rows.length * stateSize = i.values.length := by
+  exact normalizeStates_rows stateSize i rows h
+
+example : normalizeStates 2 ⟨.torchTensor 32 true, .batchMatrix 2 1 2, [0, 1, 1, 0]⟩ = some [[0, 1], [1, 0]] := by
+  decide
+
+/-- central state: `[int(x) for x in flatten(central_state)]` depends only on the values; strings of digits included -/
+theorem normalizeCentral_congr (i j : Input) (hi : fits i) (hj : fits j) (hv : i.values = j.values) :
+    normalizeCentral i = normalizeCentral j := by
+  exact normalizeCentral_congr' i j hi hj hv
+
+example : normalizeCentral ⟨.str, .flat, [0, 1, 2, 3]⟩ = normalizeCentral ⟨.npArray 8 true, .matrix 2 2, [0, 1, 2, 3]⟩ :=
+  normalizeCentral_congr _ _ (by decide) (by decide) rfl
+example : normalizeCentral ⟨.str, .flat, [0, 1, 2, 3]⟩ = [0, 1, 2, 3] := by decide
+example : normalizeCentral ⟨.torchTensor 8 false, .oneRow, [250, 2]⟩ = [250, 2] := by decide
+
+/-- generators: the rows of a 2-D container, each entry through `int(x)`, depend only on the values and the shape -/
+theorem normalizeGens_congr (i j : Input) (hi : fits i) (hj : fits j) (hv : i.values = j.values)
+    (hsh : i.shape = j.shape) (hs : i.container = .str ↔ j.container = .str) :
+    normalizeGens i = normalizeGens j := by
+  exact normalizeGens_congr' i j hi hj hv hsh hs
+
+example : normalizeGens ⟨.npArray 8 true, .matrix 2 3, [1, 0, 2, 0, 2, 1]⟩ = some [[1, 0, 2], [0, 2, 1]] := by decide
+example : normalizeGens ⟨.npArray 8 true, .matrix 2 3, [1, 0, 2, 0, 2, 1]⟩ =
+    normalizeGens ⟨.pyList, .matrix 2 3, [1, 0, 2, 0, 2, 1]⟩ :=
+  normalizeGens_congr _ _ (by decide) (by decide) rfl rfl (by decide)
+
+/-- why `int(x)` matters for generators: with int8 NumPy scalars left in place, `prepare_shift_to_mask` computes
+`start_bit = p[i] * w + j` in int8 — for `p[i] = 30`, `w = 5` that is -106, not 150 -/
+example : wrap 8 true (30 * 5 + 0) = -106 := by decide
+
+/-! ### the encoder and the cast -/
+
+/-- the fix: encoding the row after the cast to int64 is `Cv.Codec.encode`, whatever signed dtype the row came in -/
+theorem encode_widen (bits : Nat) (hb : bits ∈ [8, 16, 32, 64]) (w n : Nat) (s : List Nat)
+    (hs : ∀ v ∈ s, v < 2 ^ (bits - 1)) :
+    encodeNarrow 64 w n (widenRow bits s) = Cv.Codec.encode w n s := by
+  exact encode_widen' bits hb w n s hs
+
+example : encodeNarrow 64 1 33 (widenRow 32 (List.replicate 32 0 ++ [1])) = [0x100000000#64] := by
+  rw [encode_widen 32 (by decide) 1 33 _ (by decide)]; decide
+
+/-- why the cast is needed: an int32 row whose set bit belongs at position 32 — `1 << 32` is 0 in int32 -/
+example : encodeNarrow 32 1 33 (List.replicate 32 0 ++ [1]) ≠ Cv.Codec.encode 1 33 (List.replicate 32 0 ++ [1]) := by
+  decide
+example : encodeNarrow 32 1 33 (List.replicate 32 0 ++ [1]) = [0#64] ∧
+    Cv.Codec.encode 1 33 (List.replicate 32 0 ++ [1]) = [0x100000000#64] := by decide
+/-- … and one whose set bit belongs at position 31: `1 << 31` is the int32 sign bit, promotion sign-extends it -/
+example : encodeNarrow 32 1 32 (List.replicate 31 0 ++ [1]) = [0xFFFFFFFF80000000#64] ∧
+    Cv.Codec.encode 1 32 (List.replicate 31 0 ++ [1]) = [0x80000000#64] := by decide
+/-- int8, width 3, four elements (`w * n = 12 ≥ 8`) -/
+example : encodeNarrow 8 3 4 [0, 1, 2, 3] = [0xFFFFFFFFFFFFFF88#64] ∧
+    Cv.Codec.encode 3 4 [0, 1, 2, 3] = [0x688#64] := by decide
+/-- uint8: bits shifted past position 7 are lost -/
+example : encodeNarrowU 8 1 9 (List.replicate 8 0 ++ [1]) = [0#64] ∧
+    Cv.Codec.encode 1 9 (List.replicate 8 0 ++ [1]) = [0x100#64] := by decide
+
+/-- the narrow encoder is right exactly below the sign bit: `w * n < bits` -/
+theorem encodeNarrow_small (bits : Nat) (hb : bits ≤ 64) (w n : Nat) (h : w * n < bits) (s : List Nat) :
+    encodeNarrow bits w n s = Cv.Codec.encode w n s := by
+  exact encodeNarrow_eq_of_lt bits hb w n h s
+
+example : encodeNarrow 8 1 7 [1, 0, 1, 1, 0, 0, 1] = Cv.Codec.encode 1 7 [1, 0, 1, 1, 0, 0, 1] :=
+  encodeNarrow_small 8 (by decide) 1 7 (by decide) _
+
+end Cv.Normalize
